@@ -65,6 +65,7 @@ counting backward jumps in reader code objects (PEP 669 local events), see
 `_install_loop_guard`; without `sys.monitoring` (< 3.12) such a defect shows up
 as a wedged worker, i.e. HARNESS-ERROR, never as a pass.
 """
+import asyncio
 import json
 import sys
 import traceback
@@ -1050,6 +1051,21 @@ class Hist(object):
             return
         self.keep.append(child)
         ccur = Cursor(part, cur.cs)
+        if self.ch.draw(5, 'parent_peek_before_child') == 4:
+            # the caller looks at what is coming (without consuming anything) between creating the
+            # sub-reader and first using it
+            k = 1 + self.ch.draw(6, 'peek_len')
+            want = cur.data[cur.pos:cur.pos + k]
+            try:
+                got = await reader.peek(k)
+            except Exception as ex:
+                got = type(ex).__name__
+            entry.append('parent_peek(%d)' % k)
+            self.ctx.probe('parent_peek_before_child')
+            if not (isinstance(got, bytes) and want.startswith(got)):
+                self.violate('op.peek', 'parent peek(%d) right after delimit() returned %r, the flat cursor '
+                             'gives %r' % (k, got, want), op='peek', got='extent')
+                return
         await self.run_async(child, ccur, depth + 1, child_log, 5 if depth == 0 else 3)
         if self.stop:
             return
@@ -1069,7 +1085,19 @@ class Hist(object):
         ctx = self.ctx
         reader = AsyncBufferedReader(src.gen(), self.cs_arg)
         cur = Cursor(self.flat, self.cs)
+        by = None
+        if self.ch.draw(4, 'bystander_reader') == 3:
+            # an unrelated reader (another request on the same loop) does sized reads of its own
+            # data whenever this history's source keeps the reader waiting
+            by = asyncio.ensure_future(self.bystander())
+            ctx.probe('bystander_reader')
         st = await self.run_async(reader, cur, 0, self.oplog, 10)
+        if by is not None:
+            got, want = await by
+            if got != want and not ctx.verdicts:
+                self.violate('conservation', 'an independent reader on the same loop returned %r for its own '
+                             'stream %r' % (got[:60], want[:60]), op='bystander')
+                return
         if self.stop:
             return
         self.cur_op = 'final_drain'
@@ -1108,6 +1136,22 @@ class Hist(object):
                          op='final_drain', got='false_at_end')
             return
         ctx.event('final', len(val), t, e)
+
+    async def bystander(self):
+        data = bytes(65 + (i * 7) % 26 for i in range(41))
+
+        async def gen2():
+            for i in range(0, len(data), 3):
+                await asyncio.sleep(0)
+                yield data[i:i + 3]
+        r2 = AsyncBufferedReader(gen2(), self.cs_arg)
+        out = b''
+        for _ in range(200):
+            piece = await r2.read(5)
+            if not piece:
+                break
+            out += piece
+        return out, data
 
     def run_async_top(self):
         ctx = self.ctx
